@@ -4,12 +4,20 @@ package merkleroot
 
 import (
 	"context"
+	"encoding/binary"
+	"fmt"
+	"reflect"
 	"testing"
 
 	mapset "github.com/deckarep/golang-set/v2"
+	cctypes "github.com/smartcontractkit/chainlink-common/pkg/types"
+	"github.com/smartcontractkit/chainlink-common/pkg/types/query"
+	"github.com/smartcontractkit/chainlink-common/pkg/types/query/primitives"
 	"github.com/smartcontractkit/libocr/commontypes"
 
 	"github.com/smartcontractkit/chainlink-ccip/internal/mocks"
+	"github.com/smartcontractkit/chainlink-ccip/pkg/consts"
+	"github.com/smartcontractkit/chainlink-ccip/pkg/contractreader"
 	readerpkg "github.com/smartcontractkit/chainlink-ccip/pkg/reader"
 	cciptypes "github.com/smartcontractkit/chainlink-ccip/pkg/types/ccipocr3"
 )
@@ -40,14 +48,76 @@ func (s vC15Support) KnownSourceChainsSlice() ([]cciptypes.ChainSelector, error)
 	return append([]cciptypes.ChainSelector{}, s.known...), nil
 }
 
-// the scripted remote: what is cursed right now; answers like the real reader (only for the chains asked about)
+// the scripted remote: what is cursed right now and how the curse read behaves.
+// real == false: scripted CCIPReader answer (like the real reader: only for the chains asked about); a failing read
+//
+//	ranges over error KINDS (plain, wrapping reader.ErrContractReaderNotFound, wrapping contractreader.ErrNoBindings,
+//	context deadline / cancellation).
+//
+// real == true: the answer comes from the REAL ccipChainReader.GetRmnCurseInfo over a scripted contract reader of the
+//
+//	destination: state "noreader" (no destination reader at all), "unbound" (reader present, RMNRemote not bound),
+//	"rpc-plain" / "rpc-ctx" (bound, the call fails), "bound" (bound, returns the cursed subjects on chain).
+//
+// For the model every failing read is the one value fails = true.
 type vC15Remote struct {
 	fails, global, dest bool
 	cursed              map[uint64]bool
+	real                bool
+	kind                string
+}
+
+type vC15Facade struct {
+	subjects [][16]byte
+	err      error
+}
+
+func (f *vC15Facade) GetLatestValue(ctx context.Context, id string, c primitives.ConfidenceLevel, params, ret any) error {
+	if f.err != nil {
+		return f.err
+	}
+	fld := reflect.ValueOf(ret).Elem().FieldByName("CursedSubjects")
+	if !fld.IsValid() {
+		return fmt.Errorf("verif: unexpected read %s", id)
+	}
+	fld.Set(reflect.ValueOf(f.subjects))
+	return nil
+}
+func (f *vC15Facade) BatchGetLatestValues(context.Context, cctypes.BatchGetLatestValuesRequest) (cctypes.BatchGetLatestValuesResult, error) {
+	return nil, nil
+}
+func (f *vC15Facade) Bind(context.Context, []cctypes.BoundContract) error   { return nil }
+func (f *vC15Facade) Unbind(context.Context, []cctypes.BoundContract) error { return nil }
+func (f *vC15Facade) QueryKey(context.Context, cctypes.BoundContract, query.KeyFilter, query.LimitAndSort, any) ([]cctypes.Sequence, error) {
+	return nil, nil
+}
+
+func vC15ChainSubject(c uint64) [16]byte {
+	var b [16]byte
+	binary.BigEndian.PutUint64(b[8:], c)
+	return b
 }
 
 func (m *vC15Remote) Fn(dest cciptypes.ChainSelector, src []cciptypes.ChainSelector) (*readerpkg.CurseInfo, error) {
+	if m.real {
+		return m.realRead(dest, src)
+	}
 	if m.fails {
+		switch m.kind {
+		case "notfound":
+			return nil, fmt.Errorf("validate dest=%d extended reader existence: %w", dest,
+				fmt.Errorf("chain %d: %w", dest, readerpkg.ErrContractReaderNotFound))
+		case "nobindings":
+			return nil, fmt.Errorf("get latest value: %w", contractreader.ErrNoBindings)
+		case "both":
+			return nil, fmt.Errorf("not bound: %w: %w", readerpkg.ErrContractReaderNotFound, contractreader.ErrNoBindings)
+		case "ctx-deadline":
+			return nil, fmt.Errorf("read: %w", context.DeadlineExceeded)
+		case "ctx-canceled":
+			return nil, context.Canceled
+		case "nil-info": // an error together with a non-nil (empty) answer
+			return &readerpkg.CurseInfo{CursedSourceChains: map[cciptypes.ChainSelector]bool{}}, vErr
+		}
 		return nil, vErr
 	}
 	ci := &readerpkg.CurseInfo{CursedSourceChains: map[cciptypes.ChainSelector]bool{}, CursedDestination: m.global || m.dest, GlobalCurse: m.global}
@@ -56,6 +126,47 @@ func (m *vC15Remote) Fn(dest cciptypes.ChainSelector, src []cciptypes.ChainSelec
 	}
 	return ci, nil
 }
+
+// the real reader of an oracle, configured for the current state of the remote
+func (m *vC15Remote) realRead(dest cciptypes.ChainSelector, src []cciptypes.ChainSelector) (*readerpkg.CurseInfo, error) {
+	ctx := context.Background()
+	fac := &vC15Facade{}
+	if m.global {
+		fac.subjects = append(fac.subjects, readerpkg.GlobalCurseSubject)
+	}
+	if m.dest {
+		fac.subjects = append(fac.subjects, vC15ChainSubject(uint64(dest)))
+	}
+	var cs []uint64
+	for c, b := range m.cursed {
+		if b {
+			cs = append(cs, c)
+		}
+	}
+	vSortU64(cs)
+	for _, c := range cs {
+		fac.subjects = append(fac.subjects, vC15ChainSubject(c))
+	}
+	switch m.kind {
+	case "rpc-plain":
+		fac.err = vErr
+	case "rpc-ctx":
+		fac.err = context.DeadlineExceeded
+	}
+	readers := map[cciptypes.ChainSelector]contractreader.Extended{}
+	if m.kind != "noreader" {
+		ext := contractreader.NewExtendedContractReader(fac)
+		if m.kind != "unbound" {
+			if err := ext.Bind(ctx, []cctypes.BoundContract{{Name: consts.ContractNameRMNRemote, Address: "0x0000000000000000000000000000000000000002"}}); err != nil {
+				panic(err)
+			}
+		}
+		readers[dest] = ext
+	}
+	rd := readerpkg.NewCCIPReaderWithExtendedContractReaders(ctx, mocks.NullLogger, readers, nil, dest, []byte{0x01})
+	return rd.GetRmnCurseInfo(ctx, dest, src)
+}
+
 func (m *vC15Remote) Coq() string {
 	var cs []uint64
 	for c, b := range m.cursed {
@@ -68,7 +179,7 @@ func (m *vC15Remote) Coq() string {
 }
 func vC15GenRemote(r *vRand, chains []uint64) (*vC15Remote, string) {
 	m := &vC15Remote{cursed: map[uint64]bool{}}
-	cls := vPick(r, []string{"clean", "clean", "global", "dest", "fails", "one", "some", "all", "unrelated"})
+	cls := vPick(r, []string{"clean", "clean", "global", "dest", "fails", "fails", "one", "some", "all", "unrelated"})
 	switch cls {
 	case "global":
 		m.global = true
@@ -76,6 +187,15 @@ func vC15GenRemote(r *vRand, chains []uint64) (*vC15Remote, string) {
 		m.dest = true
 	case "fails":
 		m.fails = true
+		// whatever is on chain while the read fails (it must not matter): often a global or lane curse
+		switch r.Intn(4) {
+		case 0:
+			m.global = true
+		case 1:
+			if len(chains) > 0 {
+				m.cursed[vPick(r, chains)] = true
+			}
+		}
 	case "one":
 		if len(chains) > 0 {
 			m.cursed[vPick(r, chains)] = true
@@ -94,10 +214,22 @@ func vC15GenRemote(r *vRand, chains []uint64) (*vC15Remote, string) {
 		m.cursed[777] = true
 		m.cursed[1<<64-1] = true
 	}
-	if r.Chance(1, 10) { // a source curse on top of whatever else
-		if len(chains) > 0 {
-			m.cursed[vPick(r, chains)] = true
+	if r.Chance(1, 10) && len(chains) > 0 { // a source curse on top of whatever else
+		m.cursed[vPick(r, chains)] = true
+	}
+	m.real = r.Chance(2, 5)
+	if m.fails {
+		if m.real {
+			m.kind = vPick(r, []string{"noreader", "unbound", "unbound", "rpc-plain", "rpc-ctx"})
+		} else {
+			m.kind = vPick(r, []string{"plain", "notfound", "nobindings", "both", "ctx-deadline", "ctx-canceled", "nil-info"})
 		}
+		cls += "/" + m.kind
+	} else if m.real {
+		m.kind = "bound"
+	}
+	if m.real {
+		cls = "real/" + cls
 	}
 	return m, cls
 }
@@ -128,7 +260,9 @@ func TestVerif_C15_observe_commit(t *testing.T) {
 		rem := &vC15Remote{}
 		mode := 0
 		rd := &vCCIPReader{
-			CurseFn: func(d cciptypes.ChainSelector, s []cciptypes.ChainSelector) (*readerpkg.CurseInfo, error) { return rem.Fn(d, s) },
+			CurseFn: func(d cciptypes.ChainSelector, s []cciptypes.ChainSelector) (*readerpkg.CurseInfo, error) {
+				return rem.Fn(d, s)
+			},
 			NextSeqNumFn: func(chains []cciptypes.ChainSelector) ([]cciptypes.SeqNum, error) {
 				if mode == 1 {
 					return nil, vErr
